@@ -4,7 +4,7 @@
    every search ends with ply = 0, the repetition index where it started, the recorded history untouched -- and it always ends
    (the fuel of the model is never exhausted).  The same per call of negamax / quiescence (the backbone reused by C06/C09/C12). *)
 From Coq Require Import NArith ZArith List Bool.
-From JV Require Import Gen.Consts Model.Chess Model.Eval Model.TT Model.Search Model.SearchChess Model.Fen Model.Uci Proofs.SearchBalance.
+From JV Require Import Gen.Consts Model.Chess Model.Eval Model.TT Model.Search Model.SearchChess Model.Fen Model.Uci Proofs.SearchBalance Proofs.FenProofs.
 Import ListNotations.
 
 Theorem C17_search_frame : forall pollp stop_at bypass g depth t rt ri,
@@ -45,15 +45,16 @@ Qed.
 
 From Coq Require Import String.
 Open Scope string_scope.
-(* at the level of the UCI main loop (Model/Uci.v): every command line other than `position`, `ucinewgame` and `cleartt` -- `go` with any
-   arguments and any poll/stop schedule, `eval`, `d`, `isready`, `uci`, `stop`, unknown lines, the unmodelled `perft` family -- leaves
-   the current position and the recorded game history exactly as they were (only the transposition table may change) *)
+(* at the level of the UCI main loop (Model/Uci.v): every command line other than the four that are meant to change the game -- `position`,
+   `move`, `ucinewgame`, `cleartt` -- that is `go` with any arguments and any poll/stop schedule, `perft N`, `perft! N`, `eval`, `d`, `isready`,
+   `uci`, `stop`, unknown lines, the bench commands -- leaves the current position and the recorded game history exactly as they were
+   (only the transposition table may change) *)
 Theorem C17_inspecting_commands_keep_position_and_history : forall extra u line input,
   let cmd := lower_str (first_token (trim line)) in
-  cmd <> "position" -> cmd <> "ucinewgame" -> cmd <> "cleartt" ->
+  cmd <> "position" -> cmd <> "ucinewgame" -> cmd <> "cleartt" -> cmd <> "move" ->
   let '(u', _, _, _, _) := uci_step extra u line input in u_game u' = u_game u /\ u_rep u' = u_rep u.
 Proof.
-  intros extra u line input cmd N1 N2 N3. unfold uci_step. cbn zeta. fold cmd.
+  intros extra u line input cmd N1 N2 N3 N4. unfold uci_step. cbn zeta. fold cmd.
   destruct (String.eqb (trim line) ""); [split; reflexivity|].
   destruct (String.eqb cmd "quit" || String.eqb cmd "exit" || String.eqb cmd "x")%bool; [split; reflexivity|].
   destruct (String.eqb cmd "uci"); [split; reflexivity|].
@@ -68,10 +69,36 @@ Proof.
     destruct (session_search _ _ _ _ _); [|split; reflexivity].
     destruct (if (_ =? 0)%Z then _ else _) as [[nready stopper] rest]. split; reflexivity.
   - destruct (String.eqb cmd "stop"); [split; reflexivity|].
+    destruct (String.eqb_spec cmd "move") as [E|_]; [contradiction|].
+    destruct (String.eqb cmd "perft").
+    { destruct (rest_tokens (trim line)) as [|t r]; [split; reflexivity|].
+      destruct (String.eqb t "simple"); [split; reflexivity|].
+      destruct (parse_uint 256 t) as [d|]; [|split; reflexivity]. destruct (d =? 0)%N; split; reflexivity. }
+    destruct (String.eqb cmd "perft!").
+    { destruct (rest_tokens (trim line)) as [|t r]; [split; reflexivity|].
+      destruct (parse_uint 256 t) as [d|]; [|split; reflexivity]. destruct (d =? 255)%N; split; reflexivity. }
     destruct (_ || _)%bool; split; reflexivity.
+Qed.
+
+(* ... and what `move` does instead: it plays the listed moves on from the current position -- the earlier history stays a prefix of the new one,
+   one key is appended per move, the table is untouched; a token that is not a legal move of the position reached ends the process (panic) *)
+Theorem C17_move_command_plays_on : forall extra u line input,
+  trim line <> "" -> lower_str (first_token (trim line)) = "move" ->
+  let '(u', outs, rq, input', st) := uci_step extra u line input in
+  match play_moves (u_game u) (u_rep u) (rest_tokens (trim line)) with
+  | FOk (g, rep) => u' = mkU g (u_tt u) rep /\ st = Continue /\ outs = [] /\
+                    exists ps, positions_after (u_game u) (rest_tokens (trim line)) = Some ps /\ rep = (u_rep u ++ map hash ps)%list /\ g = last ps (u_game u)
+  | _ => u' = u /\ st = UPanic
+  end.
+Proof.
+  intros extra u line input NE CM. unfold uci_step. cbn zeta.
+  destruct (String.eqb_spec (trim line) "") as [E|_]; [contradiction|]. rewrite CM. cbn [String.eqb Ascii.eqb Bool.eqb orb].
+  destruct (play_moves (u_game u) (u_rep u) (rest_tokens (trim line))) as [[g rep]| |] eqn:P; try (split; reflexivity).
+  repeat split. apply FenProofs.play_moves_history in P. destruct P as (ps & P1 & P2 & P3). exists ps. auto.
 Qed.
 
 Print Assumptions C17_search_frame.
 Print Assumptions C17_inspecting_commands_keep_position_and_history.
+Print Assumptions C17_move_command_plays_on.
 Print Assumptions C17_negamax_balanced.
 Print Assumptions C17_quiescence_balanced.
